@@ -368,7 +368,7 @@ func c07PerturbFields(r *Rng, fs []c07AF, nested bool) []c07AF {
 
 var c07ATKind = map[string][2]string{ // atype -> (go kind, type option) for c08GenCell
 	"i8": {"i8", ""}, "i16": {"i16", ""}, "i32": {"i32", ""}, "i64": {"i64", ""}, "u8": {"u8", ""}, "u16": {"u16", ""}, "u32": {"u32", ""}, "u64": {"u64", ""},
-	"f32": {"f32", ""}, "f64": {"f64", ""}, "bool": {"bool", ""}, "utf8": {"str", ""}, "lutf8": {"str", ""}, "dict": {"str", ""}, "bin": {"bytes", ""}, "lbin": {"bytes", ""},
+	"f32": {"f32", ""}, "f64": {"f64", ""}, "bool": {"bool", ""}, "utf8": {"str", ""}, "lutf8": {"str", ""}, "dict": {"str", "enum"}, "bin": {"bytes", ""}, "lbin": {"bytes", ""},
 	"date32": {"time", "date"}, "ts": {"time", "timestamp"}, "tsutc": {"time", "timestamp"}, "time64": {"time", "time"}, "dur": {"dur", "duration"}, "dec": {"str", "decimal"},
 }
 
